@@ -48,6 +48,22 @@ func c03Gen(r *RNG, tier string) []json.RawMessage {
 			{Cells: []ItemSpec{Str("a"), Str(a)}},
 			{Cells: []ItemSpec{Str("a"), Str("mm"), Str(a)}}}}, withCustom(1))
 	}
+	// every ordered pair of lines with differently ordered rune counts and
+	// display widths as a two-line cell that alone decides its column's width
+	// (and three-line cells around each line)
+	for i, a := range measureLines {
+		for j, b := range measureLines {
+			if i == j {
+				continue
+			}
+			cell := a + "\n" + b
+			if (i+j)%3 == 0 {
+				cell = b + "\n" + a + "\n" + b
+			}
+			add(TableSpec{Rows: []RowSpec{{Cells: []ItemSpec{Str("x"), Str(cell)}}, {Cells: []ItemSpec{Str(cell), Str("")}, How: 1}}},
+				[]DecSpec{reg[(i+j)%len(reg)]})
+		}
+	}
 	// the unknown name (EmptyDecoration): an error, no text
 	{
 		h := []ItemSpec{Str("h")}
